@@ -457,7 +457,7 @@ theorem factorize_spec' (S S' : Skyline K K) (hst : S.StorageWF)
     (h : factorize (fun v => decide (v = 0)) (fun v => 1 / v) S = .ok S') (hn : 1 ≤ S.n) :
     S'.StorageWF ∧ SameFrame S S' ∧ (∀ i, i < S.n → Dd S' i ≠ 0) ∧
     ∀ i j, i < S.n → j < S.n → Emb S i j = ∑ m ∈ range S.n, Lt S' i m * Ut S' m j := by
-  unfold factorize at h
+  rw [factorize_of_pos (by omega)] at h
   split at h
   · exact absurd h (by simp)
   · rename_i h0
